@@ -78,4 +78,15 @@ theorem return_ends_loop (cfg : Cfg) (f k : Nat) (body : Stmt) (σ σ1 : St) (v 
 theorem call_pops_its_scope (σ2 : St) (fr : Frame) (rest : List Frame) :
     ({ σ2 with scopes := rest } : St).scopes = rest := rfl
 
+/-- FOR EACH's removal of its element variable reaches the top scope only: the layers below (the caller's variables
+while a procedure body runs) are what they were, whatever they hold under that name (seeded change C03-e2 searched
+every layer) -/
+theorem remove_changes_top_scope_only (σ : St) (fr : Frame) (below : List Frame) (x : Str) :
+    removeVar { σ with scopes := fr :: below } x = .ok (fr.get? x, { σ with scopes := fr.erase x :: below }) := rfl
+
+/-- … and what it hands back is the top scope's binding, never one of a lower layer -/
+theorem remove_reads_top_scope_only (σ : St) (fr : Frame) (below below' : List Frame) (x : Str) :
+    (match removeVar { σ with scopes := fr :: below } x with | .ok (v, _) => some v | _ => none) =
+    (match removeVar { σ with scopes := fr :: below' } x with | .ok (v, _) => some v | _ => none) := rfl
+
 end Aplang
